@@ -150,7 +150,8 @@ class Trace:
 
     def __init__(self, names: Sequence[str]) -> 'Trace':
         """Initialise an empty object with variable names `names`."""
-        self.names: Sequence[str] = names
+        # Store a copy: the caller's list (e.g. a model's `names`) may change later
+        self.names: Sequence[str] = list(names)
 
         # Initialise other attributes as empty variables
         self.index: List[Any] = []
